@@ -145,3 +145,91 @@ def substitute(line, tokens, render):
         pos = e
     out.append(line[pos:])
     return "".join(out)
+
+
+# ------------------------------------------------------------------ Cisco type 7 (independent)
+
+_T7_KEY = "dsfd;kfoA,.iyewrkldJKDHSUBsgvca69834ncxv9873254k;fg87"
+
+
+def type7_encode(plain, seed):
+    out = "%02d" % seed
+    for i, ch in enumerate(plain):
+        out += "%02X" % (ord(ch) ^ ord(_T7_KEY[(seed + i) % len(_T7_KEY)]))
+    return out
+
+
+def type7_decode(enc):
+    """Returns the plaintext or None if enc is not a well-formed type-7 string."""
+    if not re.fullmatch(r"[0-9]{2}([0-9A-Fa-f]{2})+", enc):
+        return None
+    seed = int(enc[:2])
+    if seed > 15:
+        return None
+    out = ""
+    for i in range(2, len(enc), 2):
+        out += chr(int(enc[i:i + 2], 16) ^ ord(_T7_KEY[(seed + (i - 2) // 2) % len(_T7_KEY)]))
+    return out
+
+
+# ------------------------------------------------------------------ Juniper $9$ (independent)
+
+J9_FAMILIES = ["QzF3n6/9CAtpu0O", "B1IREhcSyrleKvMW8LXx", "7N-dVbwsY2g4oaJZGUDj", "iHkq.mPf5T"]
+J9_ALPHABET = "".join(J9_FAMILIES)
+J9_INDEX = {c: i for i, c in enumerate(J9_ALPHABET)}
+J9_EXTRA = {}
+for _fi, _fam in enumerate(J9_FAMILIES):
+    for _c in _fam:
+        J9_EXTRA[_c] = 3 - _fi
+J9_WEIGHTS = [[1, 4, 32], [1, 16, 32], [1, 8, 32], [1, 64], [1, 32], [1, 4, 16, 128], [1, 32, 64]]
+
+
+class Malformed(Exception):
+    pass
+
+
+def j9_decode(s):
+    """Independent decoder.  Returns the plaintext; raises Malformed for anything that is not
+    '$9$' + salt char + its filler + complete groups over the alphabet."""
+    if not isinstance(s, str) or not s.startswith("$9$"):
+        raise Malformed("magic")
+    body = s[3:]
+    if len(body) < 4 or any(c not in J9_INDEX for c in body):
+        raise Malformed("alphabet/length")
+    first = body[0]
+    i = 1 + J9_EXTRA[first]
+    if i > len(body):
+        raise Malformed("filler")
+    prev = first
+    out = []
+    while i < len(body):
+        w = J9_WEIGHTS[len(out) % 7]
+        grp = body[i:i + len(w)]
+        if len(grp) != len(w):
+            raise Malformed("truncated group")
+        i += len(w)
+        total = 0
+        for ch, weight in zip(grp, w):
+            gap = (J9_INDEX[ch] - J9_INDEX[prev]) % len(J9_ALPHABET) - 1
+            total += gap * weight
+            prev = ch
+        out.append(chr(total % 256))
+    return "".join(out)
+
+
+def j9_encode(plain, salt_char, filler="net"):
+    """Independent encoder (filler characters arbitrary members of the alphabet)."""
+    n = J9_EXTRA[salt_char]
+    body = salt_char + filler[:n]
+    prev = salt_char
+    for pos, ch in enumerate(plain):
+        w = J9_WEIGHTS[pos % 7]
+        v = ord(ch)
+        gaps = []
+        for weight in reversed(w):
+            gaps.insert(0, v // weight)
+            v %= weight
+        for g in gaps:
+            prev = J9_ALPHABET[(J9_INDEX[prev] + g + 1) % len(J9_ALPHABET)]
+            body += prev
+    return "$9$" + body
